@@ -10,10 +10,11 @@ COMPONENT = "lh"
 VARIANT = "asan"
 WRAPS = ("json_c_get_random_seed",)      # the harness supplies the entropy source: -1 once, then a fixed seed
 TIMEOUT = 1500
-SLICE = 4000
+SLICE = 500            # cases per harness/driver process (gen() raises it for the thorough tier)
 RULE = ("histories of lh_table_* calls (insert / lookup / delete / delete_entry / resize / length / lh_foreach / free) on tables "
         "of initial size 1..8, 16 (and 25, 50, 100: sizes at which the double load-factor product rounds) with caller-supplied "
-        "hashes (constant, numeric identity, mod 3, byte sum, 64-bit) and the two real string hashes; histories of "
+        "hashes (constant, numeric identity, mod 3, byte sum, 64-bit) and the two real string hashes, resize also to sizes too small "
+        "for the contents (the new table grows while it is refilled); histories of "
         "json_object_object_add_ex (all flag combinations, self-add) / get_ex / del / length with every iteration form (foreach, "
         "foreachC, iterator API, serializer, visitor, lh_foreach) and foreach-with-delete-current, with empty, long and colliding "
         "keys under both json_global_set_string_hash settings; long add/delete churn over many distinct keys on a table that "
@@ -28,31 +29,57 @@ ASSUMPTIONS = ["calloc/strdup succeed (allocation failure is property C08)",
                "json_c_get_random_seed is replaced by the harness (returns -1 once, then 0x5eed1234)"]
 TRUSTED = ["glibc calloc/strdup/strcmp", "Driver/Lh.lean's transcription of hashlittle / lh_perllike_str_hash (compared with the C on every key used)"]
 
+MANIFEST = dict(
+    text="Lean 4 theorems over a checked-C model of linkhash.c and of the object layer of json_object.c/.h and json_object_iterator.c "
+         "(slot array empty|freed|live, next/prev/head/tail as indices, count, size; every index bounds-checked, every unlink "
+         "NULL-checked, every loop on fuel), for an arbitrary hash function K -> Nat: a representation invariant (probe chains never "
+         "cross an EMPTY slot, keys unique, linked list = exactly the live slots, count = #live <= size and < size after the load test) "
+         "is established by lh_table_new of every size 1..INT_MAX and kept by insert (with growth to 2*size / INT_MAX), lookup, delete, "
+         "delete_entry, resize, object_add_ex (all flags, replace in place), object_del, every iteration form and foreach-with-delete-"
+         "current; each call refines the ordered-map specification OrdMap (lh_refines), never faults and its probe/list loops end "
+         "(lh_no_fault, lookup_terminates - proved from the `count < t->size` bound read off the source), lookup answers exactly the map "
+         "(lookup_correct), lh_foreach / foreach / foreachC / iterator all yield the map in insertion order (iter_all_forms; serializer "
+         "and json_c_visit are tied to foreachC / foreach by source facts), deleting the current key inside foreach is safe "
+         "(foreach_delete_current); lifted by induction to every finite history from every initial size (run_refines, run_from_new). "
+         "The load-factor test is modelled bit-exactly (IEEE rounding of size*0.66). The model is tied to the code by constants and "
+         "structural facts regenerated from the sources on every run and by a differential run of model, spec and the ASan/UBSan-built "
+         "implementation (slot arrays included) on generated histories, exhaustive for length <= 5 over 4 keys from sizes 1..5 in the thorough tier.",
+    note="Trusted: Lean kernel + propext/Classical.choice/Quot.sound; tools/extract (st_lh.py regexes, consts.c); the differential harness "
+         "harness/lh.c and Driver/Lh.lean (incl. its transcription of hashlittle, compared with the C on every key); allocation success "
+         "(failure is C08). Appends may be refused (-1, nothing changed) only by tables of more than INT_MAX/2 slots, lh_table_resize only "
+         "by tables holding more than INT_MAX/4 entries. lh_table_resize to a size so small that the new table grows while refilled "
+         "(repaired defect lh.resize.size-not-propagated) is covered: resize_refines holds for every positive size and rests on the "
+         "source fact lhResizeKeepsArgSize = false. The model is hand-written: theorems are about the model, the correspondence run is testing.",
+    technique="Lean 4 proof (representation invariant + refinement to an association list, induction over histories) + "
+              "model/implementation correspondence run",
+    design="6/C06")
+
 TAG_RESIZE = "lh.resize.size-not-propagated"
 
-DEFECTS = [dict(
-    tag=TAG_RESIZE,
-    input="new 8 id; ins 31 1 0; ins 32 2 0; ins 33 3 0; resize 1; look 31   (lh_table_new(8,..); three inserts; "
-          "lh_table_resize(t, 1); lh_table_lookup_ex(t, \"1\", ..))",
-    observed="lh_table_resize returns 0, t->size == 1 while the entry array that was installed has 4 slots (the new table grew "
-             "while it was being filled); every later lookup probes only slot 0: keys \"1\", \"2\", \"3\" are reported absent although "
-             "lh_foreach still lists them; a later insert can spin forever in its probe loop",
-    expected="after a successful resize every key is still found (t->size describes the installed array), or the call is refused",
-    suggested_fix="in lh_table_resize take the size from the table that was built: `t->size = new_t->size;` "
-                  "(json_object itself never calls lh_table_resize with a size that makes the new table grow)")]
+# Defect found by this check and repaired in /repo by the commit
+# "fix: lh_table_resize recorded the requested size, not the size of the new table" (KNOWN_FINDINGS.json, fixed):
+#   tag    lh.resize.size-not-propagated   (linkhash.c lh_table_resize, `t->size = new_size;`)
+#   input  new 8 id; ins 31 1 0; ins 32 2 0; ins 33 3 0; resize 1; look 31
+#   was    resize returned 0 with t->size == 1 while the installed entry array had 4 slots (the new table grew while it
+#          was refilled): every later lookup probed only slot 0 (keys reported absent although lh_foreach listed them),
+#          a later insert could spin forever in its probe loop
+#   now    `t->size = new_t->size;` - the model reads this site from the source (Generated.lhResizeKeepsArgSize) and
+#          Props/C06.lean `resize_refines` holds for every positive size; the generator asks for too-small sizes.
+DEFECTS = []
 
 
-def _resize_fixed_or_known():
-    """may the generator ask for a resize so small that the new table grows while it is filled?
-    yes when the source stores new_t->size (repaired) or the defect is a listed known finding"""
-    try:
-        sys.path.insert(0, os.path.join(C.HERE, "extract"))
-        import st_lh
-        if "lhResizeKeepsArgSize : Bool := false" in st_lh.facts(C.REPO, C.CFG):
-            return True
-    except Exception:
-        pass
-    return any(f.get("property") == PROP and f.get("tag") == TAG_RESIZE for f in C.load_known().get("findings", []))
+def compare_line(case, i, il, m, s, tags):
+    """check.py's default three-way comparison, except that a case the harness did not run any more (it answers
+    HANG-LIMIT after several calls of earlier cases failed to return) says nothing: the hangs themselves are reported"""
+    if il.startswith("HANG-LIMIT"):
+        return None
+    sp = il.split(" ## ")[0]
+    if s not in ("", "*") and sp != s:
+        return ("spec", "implementation differs from the specification")
+    if il != m:
+        kind = "spec" if sp != m.split(" ## ")[0] and s in ("", "*") else "model"
+        return (kind, "implementation differs from the Lean model")
+    return None
 
 
 # ----------------------------------------------------------------------------- keys
@@ -271,15 +298,16 @@ def load_cases(rng, hi, step):
 
 
 def gen(rng, tier):
+    global SLICE
     quick = tier == "quick"
-    bad = _resize_fixed_or_known()
+    SLICE = 500 if quick else 4000
     # the very first call of lh_char_hash in the process: is the hash a function of the key?
     yield {"lines": ["new 16 dflt", "hash 616c706861", "ins 616c706861 1 0", "look 616c706861", "ins 62657461 2 0", "look 616c706861",
                      "del 616c706861", "look 616c706861", "free"]}
     for c in load_cases(rng, (1 << 16) if quick else (1 << 22), 1 << 12 if quick else 1 << 16):
         yield c
     for i in range(3000 if quick else 15000):
-        yield {"lines": raw_history(rng, rng.choice([10, 30, 60, 60]), bad_resize=bad), "keep": 1}
+        yield {"lines": raw_history(rng, rng.choice([10, 30, 60, 60]), bad_resize=True), "keep": 1}
     for i in range(1000 if quick else 5000):
         yield {"lines": obj_history(rng, rng.choice([10, 30, 60])), "keep": 1}
     # churn
